@@ -192,7 +192,9 @@ class OPEnv(RL4COEnvBase):
         ).all(), "Duplicates"
 
         # Gather locations in order of tour and get the length of tours
-        locs_ordered = gather_by_index(td["locs"], actions)
+        # (keep the step dimension also for a single-column action tensor, otherwise the roll in
+        # get_tour_length would run over the batch dimension)
+        locs_ordered = gather_by_index(td["locs"], actions, squeeze=False)
         length = get_tour_length(locs_ordered)
 
         max_length = td["max_length"]
